@@ -386,3 +386,34 @@ func RawDatagram(rng *rand.Rand, id []byte) []byte {
 		return append([]byte{[]byte{1, 3, 8, 9}[rng.Intn(4)]}, make([]byte, rng.Intn(12))...)
 	}
 }
+
+// WireIPs: loopback addresses a harness socket can bind; the registry treats them as any other address.
+var WireIPs = []string{"127.0.0.1", "127.9.9.9", "127.0.0.2", "127.1.2.3", "127.0.0.20"}
+
+// WireHistory: a history for RunWireHistory: sources are loopback addresses with bindable ports (one fixed port per
+// source and history, so that sockets are few), no empty datagrams (the socket layer drops them before the dispatcher).
+func WireHistory(rng *rand.Rand, n int, nIPs int, wildPct, rawPct int) []string {
+	perm := rng.Perm(len(WireIPs))
+	var ips []string
+	for i := 0; i < nIPs && i < len(perm); i++ {
+		ips = append(ips, WireIPs[perm[i]])
+	}
+	base := 20000 + rng.Intn(30000)
+	ports := map[string]int{}
+	var ops [][]string
+	for _, op := range SplitOps(History(rng, n, ips, wildPct, rawPct)) {
+		if len(op) == 4 && op[0] == "dg" {
+			if op[3] == "-" || op[3] == "" {
+				continue
+			}
+			if _, ok := ports[op[1]]; !ok {
+				ports[op[1]] = base + len(ports)
+			}
+			op = []string{"dg", op[1], fmt.Sprint(ports[op[1]]), op[3]}
+		} else if len(op) == 0 || op[0] != "adv" {
+			continue
+		}
+		ops = append(ops, op)
+	}
+	return JoinOps(ops)
+}
